@@ -193,7 +193,7 @@ def r2_constants(ctx, prog):
     M = macro_values(prog)
     for name, val in sorted(PINNED.items()):
         site = 'constant %s' % name
-        occ = {(v, fl) for v, fl in M.get(name, ()) if '/src/lib/' in fl}
+        occ = {(v, fl) for v, fl in M.get(name, ()) if '/src/bin/' not in fl}
         if not occ:
             r.undecided('format', site, 'constant not found in the library', file=None, line=None)
             continue
